@@ -16,7 +16,7 @@ for d in seeded/${1}*/; do
   res=""
   caught=0
   for c in $id $extra; do
-    VERIF_STICK_DIR=$wt ./check $c --tier quick >/tmp/sweep.out 2>&1; rc=$?
+    VERIF_EVIDENCE_DIR=/tmp/seed-evidence VERIF_STICK_DIR=$wt ./check $c --tier quick >/tmp/sweep.out 2>&1; rc=$?
     res="$res $c=$rc"
     [ $rc -eq 1 ] && caught=1
     [ $caught -eq 1 ] && break
